@@ -36,6 +36,11 @@ def jobs(tier):
             J.append(Job("missing_ignored@%s,k=%d" % (nm, k), "C15/stats.c", entry="h_missing_ignored", srcs=S + ["statistic.c"], kind="bounded",
                          defines={"VC_UNIT_MISSING": None, "VC_N": 3, "VC_K": k, "VC_WHICH": which}, unwind=6, functions=[nm], timeout=1200, tier="thorough", advisory=True, bound="3 elements, missing code at position %d; values symbolic in (-1e3,1e3)" % k,
                          clause="%s ignores a missing-coded truth (equal to the value on the vectors without it)" % nm))
+    for n in ((2, 3) if tier == "quick" else (2, 3, 4, 5)):
+        J.append(Job("regression_formulas@n=%d" % n, "C15/stats.c", entry="h_regression_formulas", srcs=S + ["statistic.c"], mode="ring", kind="bounded",
+                     defines={"VC_UNIT_FORMULAS": None, "VC_N": n}, unwind=n + 4, functions=["R2", "MSE", "RMSE", "MAE", "BIAS"], stubs=["stubs/usqrt_stub.c"], timeout=900,
+                     bound="%d elements; cells symbolic in 0..3 (ring mode without wrap-around)" % n,
+                     clause="R2, MSE, RMSE, MAE, BIAS == their formulas (which elements, argument order, counts, denominators; sqrt uninterpreted; rounding not decided); perfect prediction gives 0 errors and R2 = 1"))
     for (n, ny, nlv) in ([(2, 2, 2), (3, 1, 2)] if tier == "quick" else [(2, 2, 2), (3, 1, 2), (3, 2, 1), (3, 2, 2)]):
         J.append(Job("PLSRegressionStatistics@n=%d,ny=%d,nlv=%d" % (n, ny, nlv), "C15/stats.c", entry="h_PLSRegressionStatistics",
                      srcs=["matrix.c", "vector.c", "memwrapper.c", "numeric.c", "tensor.c", "list.c", "statistic.c", "preprocessing.c", "pca.c"], kind="bounded",
